@@ -15,9 +15,10 @@ package common
 // Json module rejects null):
 //   {"t":"z"} null          {"t":"n"} absent (no value)
 //   {"t":"s","s":"x"} string   {"t":"i","s":"1"} number   {"t":"b","s":"true"} bool
-//   {"t":"m","k":[sorted keys],"v":[values]} object       {"t":"l","v":[items]} array
+//   {"t":"m","f":{key: value, ...}} object                {"t":"l","v":[items]} array
 // A nil []interface{} inside a result (apply.mergeArray returns one when desired is not an
-// array) is recorded as null: that is what reaches the wire.
+// array; it is null on the wire but not DeepEqual to an empty array) is recorded as
+// {"t":"l","v":[],"z":true}.
 
 import (
 	"bufio"
@@ -25,7 +26,6 @@ import (
 	"fmt"
 	"os"
 	"reflect"
-	"sort"
 	"strconv"
 	"testing"
 
@@ -37,10 +37,10 @@ import (
 )
 
 type vTag struct {
-	T string   `json:"t"`
-	S *string  `json:"s,omitempty"`
-	K []string `json:"k,omitempty"`
-	V []*vTag  `json:"v,omitempty"`
+	T string           `json:"t"`
+	S *string          `json:"s,omitempty"`
+	F map[string]*vTag `json:"f,omitempty"`
+	V []*vTag          `json:"v,omitempty"`
 }
 
 type vCase struct {
@@ -73,9 +73,9 @@ func vFromTag(t *vTag) interface{} {
 		}
 		return f
 	case "m":
-		m := make(map[string]interface{}, len(t.K))
-		for i, k := range t.K {
-			m[k] = vFromTag(t.V[i])
+		m := make(map[string]interface{}, len(t.F))
+		for k, x := range t.F {
+			m[k] = vFromTag(x)
 		}
 		return m
 	case "l":
@@ -106,19 +106,14 @@ func vToTag(v interface{}) map[string]interface{} {
 		if x == nil {
 			return map[string]interface{}{"t": "z"}
 		}
-		keys := make([]string, 0, len(x))
-		for k := range x {
-			keys = append(keys, k)
+		f := make(map[string]interface{}, len(x))
+		for k, e := range x {
+			f[k] = vToTag(e)
 		}
-		sort.Strings(keys)
-		vals := make([]interface{}, 0, len(keys))
-		for _, k := range keys {
-			vals = append(vals, vToTag(x[k]))
-		}
-		return map[string]interface{}{"t": "m", "k": keys, "v": vals}
+		return map[string]interface{}{"t": "m", "f": f}
 	case []interface{}:
 		if x == nil {
-			return map[string]interface{}{"t": "z"}
+			return map[string]interface{}{"t": "l", "v": []interface{}{}, "z": true}
 		}
 		vals := make([]interface{}, 0, len(x))
 		for _, e := range x {
@@ -269,7 +264,7 @@ func vLastAppliedOf(u *unstructured.Unstructured) map[string]interface{} {
 
 func vRunApply(c *vCase) map[string]interface{} {
 	out := map[string]interface{}{"ran": false, "r": vAbsent, "err": "", "panic": "", "pureO": true, "pureD": true,
-		"la": vAbsent, "err2": "", "same2": true, "r2": vAbsent}
+		"la": vAbsent, "err2": "", "same2": true, "r2": vAbsent, "dAfter": vAbsent}
 	o, l, d := vAsMap(c.O), vAsMap(c.L), vAsMap(c.D)
 	hasLast := c.L != nil && c.L.T == "m"
 	orig, ok := vOrig(o, l, hasLast)
@@ -288,6 +283,9 @@ func vRunApply(c *vCase) map[string]interface{} {
 	out["err"] = vErrStr(err)
 	out["pureO"] = reflect.DeepEqual(orig.Object, orig0)
 	out["pureD"] = reflect.DeepEqual(update.Object, update0)
+	if out["pureD"] == false {
+		out["dAfter"] = vToTag(update.Object)
+	}
 	if out["panic"] == "" && err == nil && r1 != nil {
 		out["r"] = vToTag(r1.Object)
 		out["la"] = vLastAppliedOf(r1)
@@ -346,8 +344,8 @@ func TestVerifMerge(t *testing.T) {
 		if err := json.Unmarshal(line, &c); err != nil {
 			t.Fatalf("bad case line %d: %v", i+1, err)
 		}
-		if c.O == nil || c.L == nil || c.D == nil {
-			t.Fatalf("case %s lacks o/l/d", c.ID)
+		if c.O == nil || c.L == nil || c.D == nil || c.O.T != "m" || c.D.T != "m" || (c.L.T != "m" && c.L.T != "n") {
+			t.Fatalf("case %s: o and d must be objects, l an object or absent", c.ID)
 		}
 		i++
 		var raw map[string]json.RawMessage
